@@ -16,7 +16,7 @@ using namespace BaseGraph;
 #define GROUP -1
 #endif
 
-static unsigned long long g_calls = 0, g_distinctCalls = 0;
+static unsigned long long g_calls = 0, g_nontrivial = 0;
 static std::set<std::string> g_entryPoints;
 
 template <class G> struct Invalid {
@@ -32,6 +32,7 @@ template <class G> struct Invalid {
     // run one call that must be rejected with `want`
     template <class F> void reject(const std::string &entry, const std::string &text, Outcome want, F &&fn) {
         ++g_calls;
+        if (!m.e.empty()) ++g_nontrivial; // "changed nothing" is only a meaningful verdict when there is something to change
         g_entryPoints.insert(entry);
         breadcrumb("C07 state " + m.str() + " call " + text);
         Outcome got = OK;
@@ -216,6 +217,7 @@ template <class G> int runOne(Family fam, bool directed, bool labelled, const st
     if (args.has("ops")) return replayHistory<G>(cfg, "C07", args);
     ex.run();
     rep.count("rejected_calls", (long long)g_calls);
+    rep.count("rejected_calls_on_nonempty_graphs", (long long)g_nontrivial);
     rep.count("entry_points", (long long)g_entryPoints.size());
     std::vector<std::string> eps(g_entryPoints.begin(), g_entryPoints.end());
     rep.info["entry_points:" + cfg.name] = jstrarr(eps);
@@ -232,24 +234,36 @@ int main(int argc, char **argv) {
     std::string config = args.get("config", "");
 #define CFG(NAME, TYPE, FAM, DIR, LAB)                                                                                                                                             \
     if (config == NAME) return runOne<TYPE>(FAM, DIR, LAB, NAME, args);
+#define GCFG(N, NAME, TYPE, FAM, DIR, LAB) \
+    if (GROUP == N || GROUP == -1) { CFG(NAME, TYPE, FAM, DIR, LAB) }
 #if GROUP == 0 || GROUP == -1
     CFG("dir_NoLabel", LabeledDirectedGraph<NoLabel>, PLAIN, true, false)
-    CFG("und_NoLabel", LabeledUndirectedGraph<NoLabel>, PLAIN, false, false)
 #endif
 #if GROUP == 1 || GROUP == -1
-    CFG("dir_int", LabeledDirectedGraph<int>, PLAIN, true, true)
-    CFG("und_int", LabeledUndirectedGraph<int>, PLAIN, false, true)
+    CFG("und_NoLabel", LabeledUndirectedGraph<NoLabel>, PLAIN, false, false)
 #endif
 #if GROUP == 2 || GROUP == -1
-    CFG("dir_string", LabeledDirectedGraph<std::string>, PLAIN, true, true)
-    CFG("und_string", LabeledUndirectedGraph<std::string>, PLAIN, false, true)
+    CFG("dir_int", LabeledDirectedGraph<int>, PLAIN, true, true)
 #endif
 #if GROUP == 3 || GROUP == -1
-    CFG("dmulti", DirectedMultigraph, MULTI, true, true)
-    CFG("umulti", UndirectedMultigraph, MULTI, false, true)
+    CFG("und_int", LabeledUndirectedGraph<int>, PLAIN, false, true)
 #endif
 #if GROUP == 4 || GROUP == -1
+    CFG("dir_string", LabeledDirectedGraph<std::string>, PLAIN, true, true)
+#endif
+#if GROUP == 5 || GROUP == -1
+    CFG("und_string", LabeledUndirectedGraph<std::string>, PLAIN, false, true)
+#endif
+#if GROUP == 6 || GROUP == -1
+    CFG("dmulti", DirectedMultigraph, MULTI, true, true)
+#endif
+#if GROUP == 7 || GROUP == -1
+    CFG("umulti", UndirectedMultigraph, MULTI, false, true)
+#endif
+#if GROUP == 8 || GROUP == -1
     CFG("dweighted", DirectedWeightedGraph, WEIGHTED, true, true)
+#endif
+#if GROUP == 9 || GROUP == -1
     CFG("uweighted", UndirectedWeightedGraph, WEIGHTED, false, true)
 #endif
     fprintf(stderr, "config %s is not in group %d\n", config.c_str(), GROUP);
